@@ -7,13 +7,14 @@ import kf_replay
 
 def native(workdir):
     """bounded search on the REAL crates through parse() and Language::format_type of all six back ends: every type expression of depth <= 2
-    over 17 leaves (bool, char, String, &str, i8..i32, u8..u32, I54, U53, f32, f64, (), a user type, a generic parameter) and 14 unary
+    over 18 leaves (bool, char, String, &str, i8..i32, u8..u32, I54, U53, f32, f64, (), a user type, a user type named like a keyword, a generic parameter) and 14 unary
     constructors (Vec, [T; 3], &[T], Option, &T, Wrap<T>, Box / Arc / Rc / Cow / Cell / RefCell / Mutex / RwLock), HashMap over all leaf pairs, a
-    two-argument generic; depth 3 for every unary-of-unary and a sample of maps; qualified paths; depth 4-5 chains (quick: 4785 expressions,
-    thorough: 13834) - each written as struct field, tuple-variant payload, struct-variant field and alias target.  The IR must be the
+    two-argument generic; depth 3 for every unary-of-unary and a sample of maps; qualified paths incl. path-qualified scalars (typeshare::I54); depth 4-5 chains (quick: 5088 expressions,
+    thorough: about 15000) - each written as struct field, tuple-variant payload, struct-variant field and alias target.  The IR must be the
     expression with references / smart pointers / path prefixes removed and nothing else changed; every back end's spelling must be the
     compositional translation (plain, with a prefix for Kotlin / Swift, and with type_mappings for a user type, a generic type and two
-    built-in types), each primitive spelled as a target type of the same JSON category that holds every value."""
+    built-in types), each primitive spelled as a target type of the same JSON category that holds every value.  Plus two programs whose struct-variant
+    helper types (spelled outside format_type by Kotlin, Swift, Scala) must be declared and referred to with the same generic parameters."""
     exe = kf_replay.replay_bin()
     if not exe:
         return None, 'replay binary does not build: ' + kf_replay._bin.get('err', '')
